@@ -14,6 +14,7 @@ import (
 	"runtime"
 	"strconv"
 	"sync"
+	"sync/atomic"
 	"time"
 
 	"tags.cncf.io/container-device-interface/pkg/cdi"
@@ -30,10 +31,30 @@ func main() {
 	ops := c12ops.All()
 	bad := 0
 	runs := 0
+	// watchdog for everything the per-pair timeout below does not cover (creation of the cache, the
+	// reconfiguration that ends an iteration): no iteration finished for 30 s = a deadlock
+	var beat atomic.Int64
+	var current atomic.Value
+	current.Store("start")
+	beat.Store(time.Now().UnixNano())
+	go func() {
+		for {
+			time.Sleep(time.Second)
+			if time.Since(time.Unix(0, beat.Load())) > 30*time.Second {
+				buf := make([]byte, 1<<20)
+				n := runtime.Stack(buf, true)
+				fmt.Printf("HANG %s: no iteration finished for 30 s\n%s\nENDHANG\n", current.Load(), buf[:n])
+				os.RemoveAll(root)
+				os.Exit(3)
+			}
+		}
+	}()
 	for _, auto := range []bool{false, true} {
 		for i := range ops {
 			for j := i; j < len(ops); j++ {
 				for it := 0; it < iters; it++ {
+					beat.Store(time.Now().UnixNano())
+					current.Store(fmt.Sprintf("%s || %s, then Configure(manual) (auto=%v)", ops[i].Name, ops[j].Name, auto))
 					w := c12ops.Setup(filepath.Join(root, "w"))
 					c, _ := cdi.NewCache(cdi.WithSpecDirs(w.Dirs()...), cdi.WithAutoRefresh(auto))
 					var wg sync.WaitGroup
